@@ -23,7 +23,7 @@ COMPONENTS = {"real": ["Labware.log/condense_log/history/report/volumes", "EvoWo
 ASSUMPTIONS = ["a transfer that moves nothing may add no entry or one labelled entry (the statement fixes the count only for operations that move liquid)",
                "the wording of the large-volume note is not pinned: label, then an integer"]
 
-LIQ = ("add", "remove", "aspirate", "dispense", "transfer", "distribute")
+LIQ = ("add", "remove", "aspirate", "dispense", "transfer", "distribute", "evo_aspirate", "evo_dispense")
 MAX_REFS = 400
 
 
@@ -112,7 +112,8 @@ class C11Oracle(Oracle):
             return
         # ---- count
         added = [len(new[j]) - len(self.hist[j]) for j in range(n)]
-        if k in ("add", "remove", "aspirate", "dispense"):
+        if k in ("add", "remove", "aspirate", "dispense", "evo_aspirate", "evo_dispense"):
+            # (the EVO script commands are the EVO worklist's own aspirate / dispense: one entry per call as well)
             exp = {op["lab"]: (1, 1)}
         else:
             si, di = op["src"], op["dst"]
@@ -242,6 +243,12 @@ class Program:
         r = rng.random()
         if r < 0.04:
             return g.gen_misc()
+        if r < 0.12 and self.world["device"] == "evo":
+            if rng.random() < 0.25:
+                return g.gen_invalid(sess, ["evo_multicol"])
+            ek = rng.choice(["evo_aspirate", "evo_dispense"])
+            intent = ("reject.underflow" if ek == "evo_aspirate" else "reject.overflow") if fault else "ok"
+            return maybe_inject(rng, g.gen_evo(sess, ek, intent=intent, canonical=rng.random() < 0.9), self.p_int)
         if r < 0.45:
             li = None
             if rng.random() < 0.3:
